@@ -9,16 +9,19 @@ import common
 from common import run_tlc
 
 
-def strip_ann(n):
+def strip_ann(n, keep=False):
     m = dict(n)
-    m["ann"] = []
-    m["a"] = [strip_ann(c) for c in n["a"]]
+    m["ann"] = list(n.get("ann") or []) if keep else []
+    m["a"] = [strip_ann(c, keep) for c in n["a"]]
     m.pop("spelling", None)
     return m
 
 
+KEEP_ANN = [False]            # set by callers whose specification gives annotations a meaning (Den.tla)
+
+
 def normal(prog):
-    return {"main": prog["main"], "mods": {k: [strip_ann(st) for st in v] for k, v in prog["mods"].items()}}
+    return {"main": prog["main"], "mods": {k: [strip_ann(st, KEEP_ANN[0]) for st in v] for k, v in prog["mods"].items()}}
 
 
 def _write(programs, tag):
@@ -58,7 +61,11 @@ def evalabs(programs, **kw):
 
 
 def den(programs, **kw):
-    return _run("DenMC", "Den_file.cfg", programs, "den", **kw)
+    KEEP_ANN[0] = True
+    try:
+        return _run("DenMC", "Den_file.cfg", programs, "den", **kw)
+    finally:
+        KEEP_ANN[0] = False
 
 
 def _strip(n):
